@@ -31,7 +31,6 @@ Init == /\ cur \in [Langs -> CurFigs \cup {Absent}] /\ (\E l \in Langs : cur[l] 
         /\ hasPrev \in BOOLEAN
         /\ prev \in [Langs -> PrevFigs \cup {Absent}]
         /\ (~hasPrev => prev = [l \in Langs |-> Absent])
-        /\ (hasPrev => \E l \in Langs : prev[l] # Absent)
         /\ nfind = 0 /\ full = FALSE /\ repo = FALSE
 (* the findings dimension is independent of the overview: explored from one overview only *)
 Findings(n, f, r) == /\ nfind = 0 /\ ~full /\ ~repo /\ ~hasPrev /\ (\A l \in Langs : cur[l] = CHOOSE x \in CurFigs : TRUE)
